@@ -80,7 +80,7 @@ claimed = {
             'threads under the deterministic scheduler, all schedules with at most one (quick) / two (thorough) preemptions per program plus '
             'random schedules, on initial trees forcing every structural change; each execution\'s history goes through the verified '
             'validator, each sampled event trace through the extracted acceptor. This exposed D3 (collapse prepends to the surviving '
-            'sibling\'s prefix without its lock: lost read), fixed by 0f504ae. SNAPSHOT CHECK (added): on every explored execution of the C03 programs, at every moment at which no write guard is held by any thread the whole tree is dumped and must have exactly the shape the extracted sequential model builds from the same entries (C03s_snapshot_oracle: that shape is a function of the entries), and the entry set may change between consecutive snapshots only by in-flight operations that eventually succeed - the link "code = ArtModel step = commit shape" is thereby observed under concurrency, not only sequentially. Protocol rule R1 is now also demanded of scans (C03_protocol_scan_loads), and rule R6 - olc_art.hpp's own "a check() is required before acting on [node] by taking the lock": after a load from a node neither held nor owned no other node is read-locked before that node validated (C03_protocol_pointer_validated) - of operations and scans.', '5 C03',
+            'sibling\'s prefix without its lock: lost read), fixed by 0f504ae. SNAPSHOT CHECK (added): on every explored execution of the C03 programs, at every moment at which no write guard is held by any thread the whole tree is dumped and must have exactly the shape the extracted sequential model builds from the same entries (C03s_snapshot_oracle: that shape is a function of the entries), and the entry set may change between consecutive snapshots only by in-flight operations that eventually succeed - the link "code = ArtModel step = commit shape" is thereby observed under concurrency, not only sequentially. Protocol rule R1 is now also demanded of scans (C03_protocol_scan_loads), and rule R6 - the rule stated in olc_art.hpp itself, "a check() is required before acting on [node] by taking the lock": after a load from a node neither held nor owned no other node is read-locked before that node validated (C03_protocol_pointer_validated) - of operations and scans.', '5 C03',
             'Trusted: Coq 8.16.1 kernel, no axioms; sequential consistency; hooks at every lock-word / protected-field access; dsched; the '
             'search for a linearization is untrusted, its witness is checked by extracted lin_ok; schedules beyond the bound and programs '
             'beyond the listed ones are not covered.',
